@@ -25,6 +25,8 @@ class St:
         self.generator = False
         self.pool = None
         self.sleep_ms = 0
+        self.undecl = []      # files the command reads through --in that the manifest does NOT declare yet (never edited while undeclared);
+                              # a later manifest edit declares them as implicit inputs without changing the command line
         self.keep_same = False  # helper leaves an output with identical content untouched (meaningful with restat)
 
     def clone(self):
@@ -39,6 +41,7 @@ class Man:
     def __init__(self):
         self.sources = []     # files no statement produces, declared as inputs somewhere (or available for it)
         self.headers = []     # files only ever read undeclared (through a reads-file)
+        self.late = []        # files read by some command before the manifest declares them (moved to sources once every reader declares them)
         self.sts = {}         # name -> St, insertion order is a topological order
         self.pools = {}       # name -> depth
         self.defaults = None  # list of paths or None (= all roots)
@@ -82,6 +85,9 @@ class Man:
             for f in self.alias_files(i):
                 if f not in res:
                     res.append(f)
+        for f in st.undecl:
+            if f not in res:
+                res.append(f)
         return res
 
     def index(self, name):
@@ -98,7 +104,7 @@ class Man:
 
     def target_nodes(self, target):
         if target:
-            return [target]
+            return list(target)
         if self.defaults:
             return list(self.defaults)
         return self.roots()
@@ -357,6 +363,7 @@ def gen_manifest(rnd):
     nsrc = rnd.randint(2, 5)
     m.sources = ["src/s%d.txt" % i for i in range(nsrc)]
     m.headers = ["hdr/h%d.h" % i for i in range(rnd.randint(1, 3))]
+    m.late = ["src/l%d.txt" % i for i in range(rnd.choice([0, 1, 1, 2]))]
     if rnd.random() < 0.5:
         m.pools["p1"] = 1
     if rnd.random() < 0.3:
@@ -440,6 +447,9 @@ def new_cmd(rnd, m, name, files, produced, aliases):
     elif rnd.random() < 0.05:
         st.pool = "console"
     st.sleep_ms = rnd.choice([0, 0, 0, 0, 5, 15, 30])
+    pending = [f for f in m.late if f not in m.sources]
+    if pending and rnd.random() < 0.25:
+        st.undecl = [rnd.choice(pending)]
     return st
 
 
